@@ -664,6 +664,15 @@ pub fn notable_claims(now: u64) -> Vec<(Value, Vec<String>)> {
         (base(json!({"attestation_key": {"kty": "EC", "crv": "P-256", "x": "eA", "y": "eQ", "usage": {"sig": true, "enc": [1, {"k": 2}]}}, "device_keys": [{"kty": "OKP", "crv": "Ed25519", "x": "AA", "meta": {"n": 1}}, {"keys": [{"kty": "RSA", "n": "AQ", "e": "AQAB"}]}],
                      "x5c": ["MIIB", {"der": "MIIC"}], "jwks": {"keys": [{"kty": "oct", "k": "AA", "ops": {"o": 1}}]}})),
          vec!["$.attestation_key.usage.sig".into(), "$.device_keys[0].meta".into(), "$.jwks.keys[0].ops.o".into(), "$.attestation_key.kty".into()]),
+        // sibling names that some normalisation would identify (composed / decomposed accents, compatibility and full-width
+        // forms, letter case, surrounding blanks, leading zeros): to the library they are different members
+        (base(json!({"\u{e9}": 1, "e\u{301}": 2, "K": 3, "\u{212a}": 4, "\u{fb01}": 5, "fi": 6, "\u{c5}": 7, "\u{212b}": 8, "a": 9, "A": 10, " a": 11, "a ": 12, "\u{ff41}": 13, "0": 14, "00": 15, "\u{660}": 16,
+                     "in": {"\u{e9}": {"x": 1}, "e\u{301}": {"x": 2}, "stra\u{df}e": 1, "strasse": 2, "STRASSE": 3}})),
+         vec!["$.\u{e9}".into(), "$.\u{212a}".into(), "$.in.e\u{301}.x".into(), "$.in.strasse".into(), "$. a".into(), "$.00".into()]),
+        // values that some parser would identify (1 / 1.0 / 1e0 / "1" / true / "true" / null / "null" / [] / {} / "")
+        (base(json!({"n1": 1, "n2": 1.0, "n3": 1e0, "n4": "1", "b1": true, "b2": "true", "z1": null, "z2": "null", "e1": [], "e2": {}, "e3": "", "m0": -0.0, "m1": 0, "big": 18446744073709551615u64, "neg": -9223372036854775808i64,
+                     "list": [1, 1.0, "1", true, "true", null, "null", [], {}, "", 0, -0.0, [1], [1.0]]})),
+         vec!["$.n2".into(), "$.n4".into(), "$.b2".into(), "$.z1".into(), "$.e2".into(), "$.list[1]".into(), "$.list[5]".into(), "$.list[9]".into(), "$.list.[13]".into()]),
         // names that begin like the reserved ones
         (base(json!({"_sdk_version": {"major": 1}, "....": {"x": [1, 2]}, "...and more": 3, "nested": {"_sd_": {"_sdx": 1}, "... ": [true]}})), vec!["$._sdk_version.major".into(), "$......x[0]".into(), "$.nested._sd_._sdx".into()]),
     ]
